@@ -160,7 +160,8 @@ PROPS['C05']['parts'] += [{'src': 'harness/dispatch.cpp', 'prefix': 'C05/', 'var
 PROPS['C05']['rule'] += '; plus the C04 type-matrix cells driven through EventQueue (enqueue in every value category, then process) for key types int / enum / std::string / user structs, both argument-passing forms and a getEvent policy'
 for _pid, _n in (('C06', 6), ('C07', 7), ('C11', 11)):
     PROPS[_pid]['parts'] += [{'src': 'harness/sfull.cpp', 'prefix': _pid + '/all-interleavings/', 'variants': ['g17'], 'defs': ['VERIF_ONLY=%d' % _n]}]
-    PROPS[_pid]['rule'] += '; plus STATEFUL exploration of small configurations (2-3 threads): ALL interleavings without a preemption bound, the DFS pruned by a visited set over global states (queue internals, per-thread operation index + hash of everything the thread observed from shared state, oracle state); the oracles of these units are functions of that state'
+    PROPS[_pid]['parts'] += [{'src': 'harness/sfull.cpp', 'prefix': _pid + '/all-interleavings/heter/', 'variants': ['g17'], 'defs': ['VERIF_ONLY=%d' % _n, 'VERIF_HETER']}]
+    PROPS[_pid]['rule'] += '; plus STATEFUL exploration of small configurations (2-3 threads): ALL interleavings without a preemption bound, the DFS pruned by a visited set over global states (queue internals, per-thread operation index + hash of everything the thread observed from shared state, oracle state); the oracles of these units are functions of that state; the same for HeterEventQueue (no DisableQueueNotify/takeEvent there), whose plain std::list internals are hashed whole into the running thread\'s observations at every scheduling point'
     PROPS[_pid]['assumptions'] = PROPS[_pid]['assumptions'] + ['stateful units: a thread\'s local state is determined by its operation index and the values it obtained from shared state through the injected policies (the thread code is deterministic); two 64-bit hashes of the global state must both collide for a state to be wrongly merged']
 PROPS['C11']['parts'] += [{'src': 'harness/queue.cpp', 'prefix': 'C11/', 'variants': ['g17'], 'defs': ['VERIF_ONLY=11', 'VERIF_SUB=0']}]
 
